@@ -7,8 +7,8 @@ import (
 	"strings"
 
 	"github.com/mit-pdos/go-journal/vrt"
-	"verif/fsx"
 	"verif/fsck"
+	"verif/fsx"
 	"verif/par"
 	"verif/reffs"
 	"verif/report"
